@@ -191,6 +191,8 @@ class ParsersWorld:
                         op["cancel"]["as"] = rf.choice(["MemoryError", "MemoryError", "RecursionError"])
                 elif f < 0.42 and "dump" in op:
                     op["dump_fault"] = rf.choice(["EACCES", "ENOSPC", "EIO"])
+                    if core.stream(seed, "dfsys:%d" % i).random() < 0.4:
+                        op["dump_fault_sys"] = True
             ops.append(op)
         rc = core.stream(seed, "clock")
         swarm["clock"] = rc.random() < 0.5
@@ -380,7 +382,13 @@ class ParsersWorld:
                 task.cancel_exc = {"MemoryError": MemoryError, "RecursionError": RecursionError}.get(c.get("as"))
                 plan = None
                 if op.get("dump_fault"):
-                    plan = seams.IoPlan([{"site": "dump_open", "kind": op["dump_fault"]}])
+                    if op.get("dump_fault_sys"):
+                        # raised by the first os-level call of the dump that is not a stat (mkdir / open), whatever API
+                        # the library reaches it through
+                        plan = seams.IoPlan([{"site": "sys", "at": 1, "kind": op["dump_fault"]}])
+                        seams.HOOKS.sys = plan.on_sys
+                    else:
+                        plan = seams.IoPlan([{"site": "dump_open", "kind": op["dump_fault"]}])
                     seams.install_file_seams()
                     seams.HOOKS.io = plan
                 try:
@@ -408,6 +416,7 @@ class ParsersWorld:
                     task.cancel_at_line = None
                     task.cancel_exc = None
                     seams.HOOKS.io = None
+                    seams.HOOKS.sys = None
                 if ctx["fired"] == "line" and c.get("as"):
                     # the call met a failing allocation: whether it raised or swallowed it, its own outcome is not judged;
                     # every later call is
